@@ -33,6 +33,7 @@ def plan(tier, seed):
     specs += shards("faulted", 2000 if q else 80000, 250 if q else 4000, seed)
     specs += shards("rows", 6 ** 5 if q else 6 ** 7, 6 ** 4 if q else 6 ** 5, seed, L=5 if q else 7)
     specs += shards("corpus", 1, 1, seed)
+    specs.append({"family": "w0", "seed": seed, "n": 1})
     return specs
 
 
@@ -77,6 +78,9 @@ def run_shard(spec, M):
                 x //= 6
             row = "  |" + "".join(w)
             check_row(row, M)
+    elif fam == "w0":
+        from .base import run_repo_tests_under_monitors
+        run_repo_tests_under_monitors(M, G_DECIDING)
     elif fam == "corpus":
         for g in corpus.good():
             case = {"kind": "text", "family": "corpus", "text": g["text"]}
